@@ -454,3 +454,125 @@ Proof.
     { unfold lex_step, mk. apply N.eqb_neq in Hne. rewrite Hne. cbn [l_done l_cur l_cand raw_of]. reflexivity. }
     split; [exact H1|]. split; [|reflexivity]. cbn [l_cur mk]. now rewrite !app_assoc, !ends_snoc.
 Qed.
+
+(* ================= E. where textwrap may break a line: next to a blank or a hyphen ================= *)
+Local Close Scope Z_scope.
+Definition sphy (c : N) : bool := N.eqb c SP || N.eqb c HY.
+(* the chunk c, followed by the chunks r: the boundary behind c has a blank or a hyphen on one side *)
+Definition bnd (c : str) (r : list str) : Prop :=
+  c = [] \/ concat r = [] \/ sphy (last c 0%N) = true \/ sphy (hd 0%N (concat r)) = true.
+Fixpoint all_bnd (cs : list str) : Prop := match cs with [] => True | c :: r => bnd c r /\ all_bnd r end.
+
+Lemma take_while_all p : forall s a b, take_while p s = (a, b) -> Forall (fun c => p c = true) a.
+Proof.
+  induction s as [|c r IH]; intros a b H; cbn [take_while] in H; [injection H as <- <-; constructor|].
+  destruct (p c) eqn:E; [|injection H as <- <-; constructor].
+  destruct (take_while p r) as [a' b'] eqn:E'. injection H as <- <-. constructor; [exact E|]. eapply IH; eauto.
+Qed.
+Lemma last_all (P : N -> Prop) (a : str) d : Forall P a -> a <> [] -> P (last a d).
+Proof.
+  intros H Hne. destruct a as [|c r] using rev_ind; [congruence|]. rewrite last_last. apply Forall_app in H as [_ H]. now inversion H.
+Qed.
+Lemma take_while_first p c s a b : p c = true -> take_while p (c :: s) = (a, b) -> a <> [].
+Proof. intros Hp. cbn [take_while]. rewrite Hp. destruct (take_while p s). intros H. injection H as <- _. discriminate. Qed.
+
+Lemma ahead_emdash_hd s : ahead_emdash s = true -> sphy (hd 0%N s) = true.
+Proof.
+  unfold ahead_emdash. destruct s as [|c r]; [cbn; discriminate|]. cbn [take_while hd].
+  destruct (N.eqb HY c) eqn:E; [|cbn; discriminate]. intros _. apply N.eqb_eq in E. subst c. reflexivity.
+Qed.
+(* a word chunk ends at the end of the text, behind a hyphen, or before a blank or a dash *)
+Lemma word_chunk_end : forall fuel before acc s w r, word_chunk fuel before acc s = (w, r) ->
+  r = [] \/ (w <> [] /\ sphy (last w 0%N) = true) \/ sphy (hd 0%N r) = true.
+Proof.
+  induction fuel as [|f IH]; intros before acc s w r H; cbn [word_chunk] in H; [injection H as <- <-; now left|].
+  destruct s as [|c s']; [injection H as <- <-; now left|].
+  destruct acc as [|a0 acc']; [eapply IH; eauto|].
+  remember (a0 :: acc') as acc eqn:Ea.
+  destruct (N.eqb c HY && behind_hyphen_ok before && ahead_hyphen_ok s') eqn:E1.
+  { injection H as <- <-. right. left. split; [destruct acc; discriminate|]. rewrite last_last.
+    apply andb_prop in E1 as [E1 _]. apply andb_prop in E1 as [E1 _]. unfold sphy. now rewrite E1, orb_true_r. }
+  destruct (is_sp c) eqn:E2. { injection H as <- <-. right. right. cbn [hd]. unfold sphy. unfold is_sp in E2. now rewrite E2. }
+  destruct ((match before with p :: _ => tw_punct p | [] => false end) && ahead_emdash (c :: s')) eqn:E3.
+  { injection H as <- <-. right. right. apply andb_prop in E3 as [_ E3]. now apply ahead_emdash_hd. }
+  eapply IH; eauto.
+Qed.
+
+Lemma chunks_aux_bnd : forall fuel before s, all_bnd (chunks_aux fuel before s).
+Proof.
+  induction fuel as [|f IH]; intros before s; cbn [chunks_aux]; [cbn; split; [right; left; reflexivity|exact I]|].
+  destruct s as [|c s']; [exact I|].
+  destruct (is_sp c) eqn:Esp.
+  { destruct (take_while is_sp (c :: s')) as [w r] eqn:E. cbn [all_bnd]. split; [|apply IH].
+    right. right. left. pose proof (take_while_all _ _ _ _ E) as Ha. pose proof (take_while_first _ _ _ _ _ Esp E) as Hn.
+    apply (last_all (fun x => sphy x = true) w 0%N); [|exact Hn].
+    eapply Forall_impl; [|exact Ha]. intros x Hx. unfold sphy. unfold is_sp in Hx. now rewrite Hx. }
+  destruct (N.eqb c HY && (match before with p :: _ => tw_punct p | [] => false end) && ahead_emdash (c :: s')) eqn:Eem.
+  { destruct (take_while (N.eqb HY) (c :: s')) as [w r] eqn:E. cbn [all_bnd]. split; [|apply IH].
+    right. right. left. pose proof (take_while_all _ _ _ _ E) as Ha.
+    apply andb_prop in Eem as [Eem _]. apply andb_prop in Eem as [Eem _]. rewrite N.eqb_sym in Eem.
+    pose proof (take_while_first _ _ _ _ _ Eem E) as Hn.
+    apply (last_all (fun x => sphy x = true) w 0%N); [|exact Hn].
+    eapply Forall_impl; [|exact Ha]. intros x Hx. cbv beta in Hx. unfold sphy. rewrite N.eqb_sym in Hx. now rewrite Hx, orb_true_r. }
+  destruct (word_chunk (S (length (c :: s'))) before [] (c :: s')) as [w r] eqn:E. cbn [all_bnd]. split; [|apply IH].
+  unfold bnd. rewrite chunks_aux_concat. apply word_chunk_end in E as [->|[[Hw Hl]|Hr]]; auto.
+Qed.
+Lemma all_bnd_filter : forall cs, all_bnd cs -> all_bnd (filter nonempty_b cs).
+Proof.
+  induction cs as [|c r IH]; intros H; [exact I|]. destruct H as [Hb Hr]. cbn [filter].
+  destruct c as [|x c']; cbn [nonempty_b]; [now apply IH|]. cbn [all_bnd]. split; [|now apply IH].
+  unfold bnd in *. now rewrite concat_filter_ne.
+Qed.
+Lemma chunks_bnd s : all_bnd (chunks s).
+Proof. unfold chunks. change (fun c : str => match c with [] => false | _ => true end) with nonempty_b. apply all_bnd_filter, chunks_aux_bnd. Qed.
+
+(* between the chunks consumed (A) and the next one (b): a blank or a hyphen on one side *)
+Lemma last_app_ne (a b : str) d : b <> [] -> last (a ++ b) d = last b d.
+Proof.
+  intros Hb. destruct b as [|c r] using rev_ind; [congruence|]. now rewrite app_assoc, !last_last.
+Qed.
+Lemma all_bnd_split : forall A b B, all_bnd (A ++ b :: B) -> Forall ne (A ++ b :: B) -> A <> [] ->
+  sphy (last (concat A) 0%N) = true \/ sphy (hd 0%N b) = true.
+Proof.
+  induction A as [|a A' IH]; intros b B H Hne HA; [congruence|]. cbn [app all_bnd] in H. destruct H as [Hb Hr].
+  inversion Hne as [|? ? Ha Hne']; subst. destruct A' as [|a2 A''].
+  - cbn [app concat] in *. rewrite app_nil_r. inversion Hne' as [|? ? Hbne _]; subst.
+    destruct Hb as [Hb|[Hb|[Hb|Hb]]]; [contradiction| |now left|].
+    + destruct b; [now elim Hbne|discriminate].
+    + right. destruct b; [now elim Hbne|exact Hb].
+  - destruct (IH b B Hr Hne' ltac:(discriminate)) as [H|H]; [left|now right].
+    cbn [concat]. rewrite last_app_ne; [exact H|]. inversion Hne' as [|? ? Ha2 _]; subst. cbn [concat].
+    destruct a2; [now elim Ha2|discriminate].
+Qed.
+
+(* the text condition: wherever a line may be broken without a blank being there (next to a hyphen), the scanner is not inside
+   a tag that the next character continues, and the next character is not a "<" behind a backslash *)
+Definition cuts_ok (u : str) : Prop :=
+  forall X y0 Y, u = X ++ y0 :: Y -> X <> [] -> sphy (last X 0%N) || sphy y0 = true ->
+  safe_cut (fold_left lex_step X lex_init) y0 = true.
+Fixpoint cuts_okb_from (st : lexst) (prev : option N) (u : str) : bool :=
+  match u with
+  | [] => true
+  | y0 :: Y =>
+    (match prev with
+     | None => true
+     | Some p => if sphy p || sphy y0 then safe_cut st y0 else true
+     end) && cuts_okb_from (lex_step st y0) (Some y0) Y
+  end.
+Definition cuts_okb (u : str) : bool := cuts_okb_from lex_init None u.
+Lemma cuts_okb_from_ok : forall u X, cuts_okb_from (fold_left lex_step X lex_init) (match X with [] => None | _ => Some (last X 0%N) end) u = true ->
+  forall X' y0 Y, u = X' ++ y0 :: Y -> X ++ X' <> [] -> sphy (last (X ++ X') 0%N) || sphy y0 = true ->
+  safe_cut (fold_left lex_step (X ++ X') lex_init) y0 = true.
+Proof.
+  induction u as [|c u IH]; intros X H X' y0 Y E Hne Hs; [destruct X'; discriminate|].
+  cbn [cuts_okb_from] in H. apply andb_prop in H as [H1 H2].
+  destruct X' as [|x X''].
+  - cbn [app] in E. injection E as -> ->. rewrite app_nil_r in *. destruct X as [|x0 X0]; [congruence|].
+    rewrite Hs in H1. exact H1.
+  - cbn [app] in E. injection E as -> ->.
+    replace (X ++ x :: X'') with ((X ++ [x]) ++ X'') in * by now rewrite <- app_assoc.
+    apply (IH (X ++ [x])) with (Y := Y); auto.
+    rewrite fold_left_app. cbn [fold_left]. rewrite last_last. destruct (X ++ [x]) eqn:Ex; [destruct X; discriminate|]. exact H2.
+Qed.
+Lemma cuts_okb_ok u : cuts_okb u = true -> cuts_ok u.
+Proof. intros H X y0 Y E Hne Hs. apply (cuts_okb_from_ok u [] H X y0 Y E Hne Hs). Qed.
